@@ -17,7 +17,7 @@
    is proved for every number of steps.  The (s,i) effective degree model is the hand-written Model/Rhs2D.v definition
    (C07x_ebcm_to_effective_degree) and the definition generated from the source (C07x_ebcm_to_effective_degree_generated).
    Every wrapper of the hierarchy is shown to start at the manifold point Phi(theta = 1, R = 0) on the rho path. *)
-From EoNV Require Import Prelude Graph Vec VecP Aux AuxP IC Wrappers ICP Pgf C07xPoly C07xHier C07xIC C07xPref C07xMf C07xCed C07xCedIC C07xEd C07xEdIC C07xReg Rhs Rhs2D Rhs2DP Rhs2.
+From EoNV Require Import Prelude Graph Vec VecP Aux AuxP IC Wrappers ICP Pgf C07xPoly C07xHier C07xIC C07xPref C07xMf C07xCed C07xCedIC C07xEd C07xEdIC C07xReg C07xCurves Rhs Rhs2D Rhs2DP Rhs2.
 
 (* ---------- the formal derivative is the derivative ---------- *)
 Theorem C07x_formal_derivative_is_derivative : forall (F : pmap) x h,
@@ -159,7 +159,8 @@ Theorem C07x_effective_degree_from_graph_on_manifold : forall g rho_opt tau gam,
   wf_ugraph g = true -> ~ D c 1 == 0 ->
   exists Ssi0 I0 R0, (forall full sv,
     SIR_effective_degree_from_graph g (mkReq None None rho_opt) full sv = Ok (SIR_effective_degree Ssi0 I0 R0 full sv)) /\
-    veq (flatten Ssi0 ++ [R0]) (Phi_ed c (gN g) tau gam (fg_phiS0 r) fg_phiR0 1 0).
+    veq (flatten Ssi0 ++ [R0]) (Phi_ed c (gN g) tau gam (fg_phiS0 r) fg_phiR0 1 0) /\
+    msum Ssi0 + I0 + R0 == gN g.
 Proof. exact ed_fg_rho. Qed.
 (* the hierarchy identities with exactly the closures and constants the wrappers pass *)
 Theorem C07x_hierarchy_from_graph : forall g rho_opt t tau gam theta R,
@@ -245,6 +246,57 @@ Proof. exact lump_SIR_heterogeneous_meanfield_regular. Qed.
 Example C07x_nonvacuous_lump_SIR_hmf :
   ~ Qnat 3 == 0 /\ ~ vnth 0 (dSIR_heterogeneous_meanfield ([1 # 2] ++ unitv 3 1) 0 (unitv 3 9) (unitv 3 10) (1 # 2) 1) == 0.
 Proof. split; intro H; vm_compute in H; discriminate. Qed.
+
+(* ---------- the returned series, with the cited lift as an explicit hypothesis ---------- *)
+(* Solvers are abstract (Wrappers.solver: initial vector -> time index -> state).  (theta_t, R_t) is what the EBCM solver returns from
+   [1; 0].  Hypothesis (what Picard-Lindeloef uniqueness yields from the vector-field and initial-point theorems above): started at
+   any vector equal to Phi(1, 0), the big model's solver returns Phi(theta_t, R_t).  Conclusion: the S, I, R series RETURNED by the
+   big wrapper and by EBCM_from_graph are equal at every time index -- which vector each wrapper hands to its solver, how it slices
+   the rows into S, I, R and which N it uses are all proved. *)
+Theorem C07x_returned_series_compact_pairwise : forall g rho_opt tau gam, wf_ugraph g = true ->
+  let r := rho_or_default g rho_opt in let rq := mkReq None None rho_opt in let N := gN g in let c := fg_coeffs g r in
+  ~ D c 1 == 0 -> forall sv_e : solver,
+  let th := fun t => vnth 0 (sv_e [1; 0] t) in let Rr := fun t => vnth 1 (sv_e [1; 0] t) in
+  let Se := fun t => N * fg_psihat g r (th t) in let Ie := fun t => N - Se t - Rr t in
+  forall sv : solver,
+  (forall X0, veq X0 (Phi_cp c N tau gam (fg_phiS0 r) fg_phiR0 1 0) -> forall t, veq (sv X0 t) (Phi_cp c N tau gam (fg_phiS0 r) fg_phiR0 (th t) (Rr t))) ->
+  EBCM_from_graph g rq false sv_e = Ok [(nS, Sc Se); (nI, Sc Ie); (nR, Sc Rr)] /\
+  exists S I R, SIR_compact_pairwise_from_graph g rq false sv = Ok [(nS, Sc S); (nI, Sc I); (nR, Sc R)] /\
+    forall t, S t == Se t /\ I t == Ie t /\ R t == Rr t.
+Proof. exact returned_series_compact_pairwise. Qed.
+Theorem C07x_returned_series_super_compact_pairwise : forall g rho_opt tau gam, wf_ugraph g = true ->
+  let r := rho_or_default g rho_opt in let rq := mkReq None None rho_opt in let N := gN g in let c := fg_coeffs g r in
+  ~ D c 1 == 0 -> forall sv_e : solver,
+  let th := fun t => vnth 0 (sv_e [1; 0] t) in let Rr := fun t => vnth 1 (sv_e [1; 0] t) in
+  let Se := fun t => N * fg_psihat g r (th t) in let Ie := fun t => N - Se t - Rr t in
+  forall sv : solver,
+  (forall X0, veq X0 (Phi_sc c N tau gam (fg_phiS0 r) fg_phiR0 1 0) -> forall t, veq (sv X0 t) (Phi_sc c N tau gam (fg_phiS0 r) fg_phiR0 (th t) (Rr t))) ->
+  EBCM_from_graph g rq false sv_e = Ok [(nS, Sc Se); (nI, Sc Ie); (nR, Sc Rr)] /\
+  exists S I R, SIR_super_compact_pairwise_from_graph g rq false sv = Ok [(nS, Sc S); (nI, Sc I); (nR, Sc R)] /\
+    forall t, S t == Se t /\ I t == Ie t /\ R t == Rr t.
+Proof. exact returned_series_super_compact_pairwise. Qed.
+Theorem C07x_returned_series_compact_effective_degree : forall g rho_opt tau gam, wf_ugraph g = true ->
+  let r := rho_or_default g rho_opt in let rq := mkReq None None rho_opt in let N := gN g in let c := fg_coeffs g r in
+  ~ D c 1 == 0 -> forall sv_e : solver,
+  let th := fun t => vnth 0 (sv_e [1; 0] t) in let Rr := fun t => vnth 1 (sv_e [1; 0] t) in
+  let Se := fun t => N * fg_psihat g r (th t) in let Ie := fun t => N - Se t - Rr t in
+  forall sv : solver,
+  (forall X0, veq X0 (Phi_ced c N tau gam (fg_phiS0 r) fg_phiR0 1 0) -> forall t, veq (sv X0 t) (Phi_ced c N tau gam (fg_phiS0 r) fg_phiR0 (th t) (Rr t))) ->
+  EBCM_from_graph g rq false sv_e = Ok [(nS, Sc Se); (nI, Sc Ie); (nR, Sc Rr)] /\
+  exists S I R, SIR_compact_effective_degree_from_graph g rq false sv = Ok [(nS, Sc S); (nI, Sc I); (nR, Sc R)] /\
+    forall t, S t == Se t /\ I t == Ie t /\ R t == Rr t.
+Proof. exact returned_series_compact_effective_degree. Qed.
+Theorem C07x_returned_series_effective_degree : forall g rho_opt tau gam, wf_ugraph g = true ->
+  let r := rho_or_default g rho_opt in let rq := mkReq None None rho_opt in let N := gN g in let c := fg_coeffs g r in
+  ~ D c 1 == 0 -> forall sv_e : solver,
+  let th := fun t => vnth 0 (sv_e [1; 0] t) in let Rr := fun t => vnth 1 (sv_e [1; 0] t) in
+  let Se := fun t => N * fg_psihat g r (th t) in let Ie := fun t => N - Se t - Rr t in
+  forall sv : solver,
+  (forall X0, veq X0 (Phi_ed c N tau gam (fg_phiS0 r) fg_phiR0 1 0) -> forall t, veq (sv X0 t) (Phi_ed c N tau gam (fg_phiS0 r) fg_phiR0 (th t) (Rr t))) ->
+  EBCM_from_graph g rq false sv_e = Ok [(nS, Sc Se); (nI, Sc Ie); (nR, Sc Rr)] /\
+  exists S I R, SIR_effective_degree_from_graph g rq false sv = Ok [(nS, Sc S); (nI, Sc I); (nR, Sc R)] /\
+    forall t, S t == Se t /\ I t == Ie t /\ R t == Rr t.
+Proof. exact returned_series_effective_degree. Qed.
 
 (* ---------- regular graphs, rho path: the wrappers start at corresponding points of the symmetric subspace ---------- *)
 (* regularb g k: every node has degree k.  r = rho (or 1/N), N = G.order().  The correspondences are the changes of variables of
@@ -392,6 +444,10 @@ Print Assumptions C07x_prefmix_discrete_outputs.
 Print Assumptions C07x_dict_pgf_is_polynomial.
 Print Assumptions C07x_lump_SIR_heterogeneous_meanfield_regular.
 Print Assumptions C07x_nonvacuous_lump_SIR_hmf.
+Print Assumptions C07x_returned_series_compact_pairwise.
+Print Assumptions C07x_returned_series_super_compact_pairwise.
+Print Assumptions C07x_returned_series_compact_effective_degree.
+Print Assumptions C07x_returned_series_effective_degree.
 Print Assumptions C07x_SIR_pairwise_regular_initial_points.
 Print Assumptions C07x_SIS_pairwise_regular_initial_points.
 Print Assumptions C07x_SIS_meanfield_regular_initial_points.
